@@ -420,6 +420,22 @@ def run(fn, args, stop_before=None, max_steps=4000, call_model=None, stop_after=
                 else:
                     raise Stop("from_bytes of a non-byte value")
             return BV(rows, const)
+        if name == "filter" and len(argv) == 2 and isinstance(d0, Iter) and closure_of is not None:
+            clo = closure_of(t)
+            if clo is None:
+                raise Stop("closure of filter not resolved")
+            byref = (clo.local_ty(1) or "").startswith("&")
+            keep = []
+            for item in d0.items:
+                env = {"env": argv[1], "i": item}
+                v2, _ = run(clo, {1: Ref(env, "env") if byref else argv[1], 2: Ref(env, "i")}, max_steps=max_steps, call_model=call_model, params=params, closure_of=closure_of, const_of=const_of)
+                if not isinstance(v2.get(0), bool):
+                    raise Stop("predicate of filter is not decided")
+                if v2.get(0):
+                    keep.append(item)
+            return Iter(keep)
+        if name == "last" and len(argv) == 1 and isinstance(d0, Iter):
+            return Opt(d0.items[-1], True) if d0.items else Opt()
         if name in ("find", "any", "all", "position") and len(argv) == 2 and isinstance(d0, Iter) and closure_of is not None:
             clo = closure_of(t)
             if clo is None:
